@@ -185,3 +185,70 @@ def reconstruction_is_uncached(ctx, rule):
                f'MdibBase.{name} stores {stores or memo} on the MDIB: a later Get response can be answered from that store '
                f'instead of the current tables', fi=fi)
     ctx.floor(rule, n, 3, 'reconstruct functions of MdibBase')
+
+
+def index_lists_not_mutated_while_iterated(ctx, rule):
+    """remove_objects(L) iterates L while it removes every element from the indices: L must not be the list that an index
+    holds (`table.<index>.get(key)`), or every second object is skipped and stays in the table - a copy is required."""
+    from engine.flow import Resident
+    repo = ctx.repo
+    n = 0
+    for q, fi in sorted(repo.funcs.items()):
+        if not q.startswith('sdc11073.mdib.'):
+            continue
+        calls = [c for c in calls_in(fi.node) if call_name(c) in ('remove_objects', 'remove_objects_no_lock') and c.args]
+        if not calls:
+            continue
+        is_mdib = fi.cls is not None and 'sdc11073.mdib.mdibbase.MdibBase' in repo.mro(fi.cls.qual)
+        res = Resident(fi.node, self_is_mdib=is_mdib)
+        g = cfg_of(fi)
+        for c in calls:
+            arg = c.args[0]
+            hn = g.holder(c)
+            vals = [arg]
+            if isinstance(arg, ast.Name) and hn is not None:
+                defs = g.reaching_defs(arg.id).get(hn.id, set())
+                vals = [g.def_value(d, arg.id) for d in defs if d.kind == 'stmt']
+                vals = [v for v in vals if v is not None]
+                if not vals:
+                    continue   # a parameter: the callers are judged
+            n += 1
+            owned = [unparse(v) for v in vals if isinstance(v, ast.Call) and call_name(v) in ('get', 'get_one') and
+                     isinstance(v.func, ast.Attribute) and res.is_table(v.func.value)]
+            owned += [unparse(v) for v in vals if isinstance(v, ast.Subscript) and not isinstance(v.slice, ast.Slice) and
+                      res.is_table(v.value)]
+            ctx.ob(rule, f'{fi.name}: {unparse(c)[:60]}', not owned,
+                   f'{fi.name}: the objects handed to {call_name(c)} are listed in a list of their own' if not owned else
+                   f'{fi.name}: {call_name(c)} is given the list that the index itself holds ({owned[0]}): the removal shrinks '
+                   f'that list while it is iterated, every second state of the descriptor stays in the table (orphan state)',
+                   fi=fi, node=c)
+    ctx.floor(rule, n, 1, 'remove_objects calls with a locally computed list')
+
+
+def entity_getters_hand_out_copies(ctx, rule):
+    """The entity interface (EntityGetter, get_entity ...) returns deep copies: nothing that is stored in the MDIB tables (or a
+    shallow copy of a list / dict of stored objects) leaves through a return statement."""
+    from engine.flow import Resident
+    from .c03 import _resident_parts
+    repo = ctx.repo
+    eg = ['sdc11073.mdib.mdibbase.EntityGetter._mk_entity', 'sdc11073.mdib.mdibbase.EntityGetter.by_handle',
+          'sdc11073.mdib.mdibbase.EntityGetter.by_node_type', 'sdc11073.mdib.mdibbase.EntityGetter.by_parent_handle',
+          'sdc11073.mdib.mdibbase.EntityGetter.items', 'sdc11073.mdib.mdibbase.MdibBase.get_entity',
+          'sdc11073.mdib.mdibbase.MdibBase.get_context_entity']
+    n = 0
+    for q in eg:
+        fi = repo.funcs.get(q)
+        if fi is None:
+            continue
+        res = Resident(fi.node, self_is_mdib=fi.cls is not None and 'sdc11073.mdib.mdibbase.MdibBase' in repo.mro(fi.cls.qual))
+        g = cfg_of(fi)
+        for r in walk_no_nested(fi.node):
+            if isinstance(r, ast.Return) and r.value is not None:
+                n += 1
+                leaks = _resident_parts(r.value, res)
+                ctx.ob(rule, f'{fi.name}: return {g.canon_text(g.holder(r), r.value)}', not leaks,
+                       f'{fi.name} returns a copy / a new object' if not leaks else
+                       f'{fi.name} hands out the object(s) stored in the MDIB without a (deep) copy: '
+                       f'{[unparse(x) for x in leaks]}; an application that edits the entity edits the committed containers, '
+                       f'which a Get response that was selected earlier is still being serialised from', fi=fi, node=r)
+    ctx.floor(rule, n, 5, 'return statements of the entity getters')
